@@ -132,7 +132,7 @@ def main():
                 level_note=c['note'] + ' The bounds as built are in the '
                 'evidence file (bounds.quick / thorough / outside) and in '
                 'DESIGN.md section 5; the seeded changes that shaped them '
-                '(13 rounds) in section 9.',
+                '(14 rounds) in section 9.',
                 technique=c['technique']))
         else:
             na.append(dict(property_id=pid, reason=NOT_APPLICABLE.get(pid, PENDING)))
